@@ -12,8 +12,8 @@
    tables with the speaker model's tables at every quiescent point. *)
 EXTENDS Monitor, SpeakerDom, TraceUtil
 
-VARIABLES l, st, mu, muviol, dumps, isDump, obs, hasObs
-tvars == <<up, inr, loc, impPol, expPol, inrPol, expEff, l, st, mu, muviol, dumps, isDump, obs, hasObs>>
+VARIABLES l, st, mu, muviol, dumps, isDump, obs, hasObs, must
+tvars == <<up, inr, loc, impPol, expPol, inrPol, expEff, l, st, mu, muviol, dumps, isDump, obs, hasObs, must>>
 
 IsEvent(e) == l <= TLen /\ Trace[l].ev = e /\ l' = l + 1
 Row == Trace[l]
@@ -39,16 +39,22 @@ UpdFold(s, ms, i) == IF i > Len(ms) THEN s ELSE UpdFold(UpdFold1(s, ms[i]), ms, 
 
 (* common part of every step: fold what arrived, copy the observation.  clr = neighbours whose
    BGP4MP replay starts afresh; stBase = the station before the records of this step *)
-Take(stBase, off, clr) ==
-  /\ LET s1 == [StFold(stBase, Row.bmp, 1) EXCEPT !.initial = FALSE] IN st' = IF off THEN StOff(s1) ELSE s1
+(* fresh = the (neighbour, prefix) pairs announced by this step: recorded as "announced after the current
+   monitoring session was opened" unless the session was opened during this very step (input fact for the
+   weakened invariants) *)
+TakeF(stBase, off, clr, fresh) ==
+  /\ LET s1 == [StFold(stBase, Row.bmp, 1) EXCEPT !.initial = FALSE]
+         s2 == IF s1.sess = stBase.sess THEN [s1 EXCEPT !.fresh = @ \cup fresh] ELSE s1
+     IN st' = IF off THEN StOff(s2) ELSE s2
   /\ LET base == [p \in Peers |-> IF p \in clr THEN EmptyPeerTbl ELSE mu[p]]
          r    == UpdFold([tbl |-> base, viol |-> muviol], Row.upd, 1)
      IN mu' = r.tbl /\ muviol' = r.viol
   /\ IF "dumps" \in DOMAIN Row THEN dumps' = Row.dumps /\ isDump' = TRUE ELSE dumps' = <<>> /\ isDump' = FALSE
   /\ obs' = Row.obs /\ hasObs' = TRUE
+Take(stBase, off, clr) == TakeF(stBase, off, clr, {})
 
 TraceInit == PInit /\ l = 1 /\ st = StInit /\ mu = NoTbl /\ muviol = {} /\ dumps = <<>> /\ isDump = FALSE
-             /\ obs = [none |-> TRUE] /\ hasObs = FALSE
+             /\ obs = [none |-> TRUE] /\ hasObs = FALSE /\ must = FALSE
 
 TReset == /\ IsEvent("Reset")
           /\ up' = [p \in Peers |-> FALSE]
@@ -58,26 +64,32 @@ TReset == /\ IsEvent("Reset")
           /\ inrPol' = [p \in Peers |-> [x \in Prefixes |-> "acc"]]
           /\ expEff' = [p \in Peers |-> "acc"]
           /\ st' = StInit /\ mu' = NoTbl /\ muviol' = {} /\ dumps' = <<>> /\ isDump' = FALSE
-          /\ obs' = [none |-> TRUE] /\ hasObs' = FALSE
+          /\ obs' = [none |-> TRUE] /\ hasObs' = FALSE /\ must' = FALSE
 
-TUp      == IsEvent("Up") /\ PUp(Row.p) /\ Take(st, FALSE, {Row.p})
-TDown    == IsEvent("Down") /\ PDown(Row.p) /\ Take(st, FALSE, {Row.p})
-TAnn     == IsEvent("Ann") /\ PAnn(Row.p, Row.x, Row.r) /\ Take(st, FALSE, {})
-TWd      == IsEvent("Wd") /\ PWd(Row.p, Row.x) /\ Take(st, FALSE, {})
-TApiAdd  == IsEvent("ApiAdd") /\ PApiAdd(Row.x, Row.r) /\ Take(st, FALSE, {})
-TApiDel  == IsEvent("ApiDel") /\ PApiDel(Row.x) /\ Take(st, FALSE, {})
+(* must: this step makes the daemon write to the station whatever the monitoring policy (a session is
+   established or an established session ends: Peer Up / Peer Down), so a lost connection is noticed and a
+   new monitoring session is opened during the step *)
+TUp      == IsEvent("Up") /\ PUp(Row.p) /\ Take(st, FALSE, {Row.p}) /\ must' = st.on
+TDown    == IsEvent("Down") /\ PDown(Row.p) /\ Take(st, FALSE, {Row.p}) /\ must' = st.on
+TAnn     == IsEvent("Ann") /\ PAnn(Row.p, Row.x, Row.r) /\ TakeF(st, FALSE, {}, {<<Row.p, Row.x>>}) /\ must' = FALSE
+TWd      == IsEvent("Wd") /\ PWd(Row.p, Row.x) /\ Take(st, FALSE, {}) /\ must' = FALSE
+TApiAdd  == IsEvent("ApiAdd") /\ PApiAdd(Row.x, Row.r) /\ Take(st, FALSE, {}) /\ must' = FALSE
+TApiDel  == IsEvent("ApiDel") /\ PApiDel(Row.x) /\ Take(st, FALSE, {}) /\ must' = FALSE
 TDelPeer == /\ IsEvent("DelPeer")
+            /\ must' = (st.on /\ up[Row.p])
             /\ (IF up[Row.p] THEN PDown(Row.p) ELSE UNCHANGED pvars)
             (* input fact for the weakened invariants: de-configured while its bracket was open *)
             /\ Take(IF Row.p \in st.up THEN [st EXCEPT !.ghost = @ \cup {Row.p}] ELSE st, FALSE, {Row.p})
-TAddPeer == IsEvent("AddPeer") /\ Take(st, FALSE, {}) /\ UNCHANGED pvars
-TBmpOn   == IsEvent("BmpOn") /\ Take(StOn(st, Row.pol), FALSE, {}) /\ UNCHANGED pvars
-TBmpOff  == IsEvent("BmpOff") /\ Take(st, TRUE, {}) /\ UNCHANGED pvars
-TDump    == IsEvent("Dump") /\ Take(st, FALSE, {}) /\ UNCHANGED pvars
-TSettle  == IsEvent("Settle") /\ Take(st, TRUE, {}) /\ UNCHANGED pvars
+TAddPeer == IsEvent("AddPeer") /\ Take(st, FALSE, {}) /\ UNCHANGED pvars /\ must' = FALSE
+TBmpOn   == IsEvent("BmpOn") /\ Take(StOn(st, Row.pol), FALSE, {}) /\ UNCHANGED pvars /\ must' = TRUE
+TBmpOff  == IsEvent("BmpOff") /\ Take(st, TRUE, {}) /\ UNCHANGED pvars /\ must' = FALSE
+(* the station closes the connection; the daemon notices at its next write *)
+TBmpDrop == IsEvent("BmpDrop") /\ Take(StDrop(st), FALSE, {}) /\ UNCHANGED pvars /\ must' = FALSE
+TDump    == IsEvent("Dump") /\ Take(st, FALSE, {}) /\ UNCHANGED pvars /\ must' = FALSE
+TSettle  == IsEvent("Settle") /\ Take(st, TRUE, {}) /\ UNCHANGED pvars /\ must' = FALSE
 
 TraceNext == TReset \/ TUp \/ TDown \/ TAnn \/ TWd \/ TApiAdd \/ TApiDel \/ TDelPeer \/ TAddPeer
-             \/ TBmpOn \/ TBmpOff \/ TDump \/ TSettle
+             \/ TBmpOn \/ TBmpOff \/ TBmpDrop \/ TDump \/ TSettle
 TraceSpec == TraceInit /\ [][TraceNext]_tvars
 
 ---------------------------------------------------------------------------
@@ -94,24 +106,30 @@ Noted(T) == Tags(st) \cap T # {}
 (* every record the station received parses back, and is exactly as long as its header says *)
 C19_BmpParses == ~Noted({"parse-rm", "parse-up", "parse-down", "parse-other", "framing"})
 
-(* one Initiation opens the stream, Termination closes it *)
+(* one Initiation opens a monitoring session, Termination (or the loss of the connection) closes it *)
+Live == st.on /\ st.started
 C19_BmpSession == /\ ~Noted({"init-twice", "term-before-init", "before-init"})
-                  /\ st.on = st.started
+                  /\ (st.on /\ ~st.dropped) => st.started
+                  /\ st.started => (st.on /\ ~st.dropped)
+(* after the connection was lost, a new monitoring session exists at the latest once a step has made the
+   daemon write (Peer Up / Peer Down); everything the new session must contain is demanded by the
+   invariants below, which hold for every live session *)
+C19_BmpReconnect == must => st.started
 
 (* no route monitoring, statistics or Peer Down for a neighbour outside a Peer Up .. Peer Down
    bracket; the brackets open at quiescence are exactly the established sessions *)
 C19_BmpBracket ==
   /\ ~Noted({"bracket-rm", "bracket-up-twice", "bracket-down-without-up", "bracket-stats", "bracket-rm-unknown-peer",
              "bracket-up-unknown-peer", "bracket-down-unknown-peer", "peer-type"})
-  /\ st.on => st.up \ st.ghost = {p \in Peers : up[p]}
+  /\ Live => st.up \ st.ghost = {p \in Peers : up[p]}
 (* ... also for a neighbour that is de-configured while established (its bracket must be closed) *)
-C19_BmpBracket_Deconfigured == ~Noted({"bracket-up-twice-ghost"}) /\ (st.on => st.ghost = {})
+C19_BmpBracket_Deconfigured == ~Noted({"bracket-up-twice-ghost"}) /\ (Live => st.ghost = {})
 (* ... and no post-policy route monitoring under an all-zero peer header (locally originated routes)
    that no Peer Up ever announced *)
 C19_BmpBracket_LocalPost == ~Noted({"bracket-rm-local-post"})
 C19_BmpLocRibBracket ==
   /\ ~Noted({"bracket-locrib-rm", "bracket-locrib-up-twice", "bracket-locrib-down"})
-  /\ st.on => st.locup = WantsLoc(st.pol)
+  /\ Live => st.locup = WantsLoc(st.pol)
 
 (* per-peer header (address, AS, BGP identifier) and the OPENs of Peer Up are the session's *)
 C19_BmpPeerHeader == ~Noted({"hdr-rm", "hdr-up", "hdr-up-open", "hdr-down", "hdr-locrib-rm", "hdr-locrib-up", "hdr-locrib-down"})
@@ -120,23 +138,30 @@ C19_BmpPeerUpLocalAddress == ~Noted({"up-local-address", "up-local-address-unset
 C19_BmpPeerUpLocalAddress_KF == ~Noted({"up-local-address"})
 
 (* the pre-policy stream, folded, IS the Adj-RIB-In of every neighbour *)
-AdjInOk(P) == (st.on /\ WantsPre(st.pol)) =>
+AdjInOk(P) == (Live /\ WantsPre(st.pol)) =>
                  /\ ~Noted({"unknown-prefix"})
                  /\ \A p \in P : \A x \in Prefixes : PreOk(st.pre[p][x], p, x)
 C19_BmpAdjInExact    == AdjInOk(Peers)
 C19_BmpAdjInExact_KF == AdjInOk(Peers \ st.ghost)          \* KF-C19-bmp-deconfigured-no-peerdown
 (* the post-policy stream, folded, is the Adj-RIB-In after inbound processing *)
-PostPolicyOk(P, tolerateInitial) ==
-  (st.on /\ WantsPost(st.pol)) =>
-     \A p \in P : \A x \in Prefixes : (tolerateInitial /\ <<p, x>> \in st.ip) \/ PostOk(st.post[p][x], p, x)
-C19_BmpPostPolicy    == PostPolicyOk(Peers, FALSE)
-C19_BmpPostPolicy_KF == PostPolicyOk(Peers \ st.ghost, TRUE)  \* + KF-C19-bmp-post-withdraw-after-initial-dump
+(* Cached(p, x): the route of (p, x) was reported post-policy on an EARLIER monitoring session of this station,
+   the neighbour announced it (again) after the current session was opened, and the station does not have it
+   (KF-C19-bmp-ribout-survives-reconnect); a route that did not change since before the current session was
+   opened is NOT covered: it belongs to the initial dump *)
+Cached(p, x) == <<p, x>> \in st.old /\ <<p, x>> \in st.fresh /\ st.post[p][x] = NoRoute
+PostPolicyOk(P, tolerateInitial, tolerateCached) ==
+  (Live /\ WantsPost(st.pol)) =>
+     \A p \in P : \A x \in Prefixes : \/ (tolerateInitial /\ <<p, x>> \in st.ip)
+                                       \/ (tolerateCached /\ Cached(p, x))
+                                       \/ PostOk(st.post[p][x], p, x)
+C19_BmpPostPolicy    == PostPolicyOk(Peers, FALSE, FALSE)
+C19_BmpPostPolicy_KF == PostPolicyOk(Peers \ st.ghost, TRUE, TRUE)  \* + KF-C19-bmp-post-withdraw-after-initial-dump
 (* the Loc-RIB stream, folded under the capabilities its own Peer Up announces, IS the set of selected routes *)
 C19_BmpLocRibExact ==
-  (st.on /\ WantsLoc(st.pol) /\ st.locup) => \A x \in Prefixes : LocOk(st.loc, x)
+  (Live /\ WantsLoc(st.pol) /\ st.locup) => \A x \in Prefixes : LocOk(st.loc, x)
 (* weakened for KF-C19-bmp-locrib-stale-pathid: the same stream folded by prefix only *)
 C19_BmpLocRibExact_KF ==
-  (st.on /\ WantsLoc(st.pol) /\ st.locup) => \A x \in Prefixes : LocpOk(st.locp, x)
+  (Live /\ WantsLoc(st.pol) /\ st.locup) => \A x \in Prefixes : LocpOk(st.locp, x)
 
 ---------------------------------------------------------------------------
 (* C19, MRT TABLE_DUMPv2: the LAST group written during a Dump step is the table at that quiescent point *)
@@ -207,7 +232,8 @@ KfHits ==
   /\ Hit(C19_BmpAdjInExact, C19_BmpAdjInExact_KF, "KF-C19-bmp-deconfigured-no-peerdown", "C19_BmpAdjInExact")
   /\ Hit(C19_BmpBracket_LocalPost, TRUE, "KF-C19-bmp-post-initial-local-routes", "C19_BmpBracket_LocalPost")
   /\ Hit(C19_BmpPostPolicy, C19_BmpPostPolicy_KF,
-         IF PostPolicyOk(Peers \ st.ghost, FALSE) THEN "KF-C19-bmp-deconfigured-no-peerdown"
+         IF PostPolicyOk(Peers \ st.ghost, FALSE, FALSE) THEN "KF-C19-bmp-deconfigured-no-peerdown"
+         ELSE IF PostPolicyOk(Peers \ st.ghost, FALSE, TRUE) THEN "KF-C19-bmp-ribout-survives-reconnect"
          ELSE "KF-C19-bmp-post-withdraw-after-initial-dump", "C19_BmpPostPolicy")
   /\ Hit(C19_BmpLocRibExact, C19_BmpLocRibExact_KF, "KF-C19-bmp-locrib-stale-pathid", "C19_BmpLocRibExact")
   /\ Hit(C19_MrtParses, C19_MrtParses_KF, "KF-C19-mrt-peerindex-local-route", "C19_MrtParses")
@@ -218,7 +244,9 @@ KfConstraint == Hwm(l) /\ KfHits
 SomeRoute == \E p \in Peers : \E x \in Prefixes : inr[p][x] # NoRoute
 TraceConstraint ==
   /\ Hwm(l)
-  /\ NoteIf(hasObs /\ st.on /\ SomeRoute, <<"bmp", st.pol, up, inr, loc>>)
+  /\ NoteIf(hasObs /\ Live /\ SomeRoute, <<"bmp", st.pol, up, inr, loc>>)
+  /\ NoteIf(hasObs /\ must /\ l > 1 /\ Trace[l - 1].ev # "BmpOn" /\ SomeRoute /\ st.n > 0 /\ Len(Trace[l - 1].bmp) > 0
+              /\ Trace[l - 1].bmp[1].t = "init", <<"reconnect", st.pol, up, inr, loc>>)
   /\ NoteIf(HasDump /\ (SomeRoute \/ \E x \in Prefixes : loc[x] # NoRoute), <<"mrt", up, inr, loc>>)
   /\ NoteIf(hasObs /\ SomeRoute, <<"upd", up, inr>>)
   /\ NoteIf(HasDump /\ G.piterr = "" /\ \E x \in Prefixes : Cardinality(LocRibExpected(x)) >= 2, <<"mrt2", up, inr, loc>>)
